@@ -103,6 +103,29 @@ func faultsOf(base *dsl.Program, lay layoutOpt) []Fault {
 			dup := &e
 			q.Meta[bi].Entries = append(q.Meta[bi].Entries, dup)
 			emit("duplicate MetaData entry", "same block", q, dsl.SpanKey{Node: dup, Sub: -1}, []string{dup.Name}, "duplicate", "already")
+			// the duplicate is of the other declaration form (typed <-> reference to another entry)
+			q2 := base.Clone()
+			orig := q2.Meta[bi].Entries[ei]
+			var other *dsl.MetaEntry
+			if orig.Kind == dsl.MetaRef {
+				other = &dsl.MetaEntry{Name: orig.Name, Kind: dsl.Scalar, Type: "u32", Doc: "typed duplicate"}
+			} else if len(q2.Meta[bi].Entries) > 1 {
+				refTo := q2.Meta[bi].Entries[0].Name
+				if refTo == orig.Name {
+					refTo = q2.Meta[bi].Entries[1].Name
+				}
+				other = &dsl.MetaEntry{Name: orig.Name, Kind: dsl.MetaRef, Ref: refTo, Doc: "reference duplicate"}
+			}
+			if other != nil {
+				q2.Meta[bi].Entries = append(q2.Meta[bi].Entries, other)
+				emit("duplicate MetaData entry", "other declaration form, same block", q2, dsl.SpanKey{Node: other, Sub: -1}, []string{other.Name}, "duplicate", "already")
+			}
+			// in a second MetaData block
+			q3 := base.Clone()
+			e3 := *q3.Meta[bi].Entries[ei]
+			nb := &dsl.MetaBlock{Name: "Second", Entries: []*dsl.MetaEntry{&e3}}
+			q3.Meta = append(q3.Meta, nb)
+			emit("duplicate MetaData entry", "another block", q3, dsl.SpanKey{Node: &e3, Sub: -1}, []string{e3.Name}, "duplicate", "already")
 		}
 	}
 	// 3 duplicate option
